@@ -140,11 +140,11 @@ structure SideI (c : PCtx) (D offs : List Nat) (b n : Nat) (i : Instr) : Prop wh
   id : i.id = offs.getD b 0 + n
   glob : Side.globalsInRange c.prog.globals.length i.op.operands = true
   lab : Prov.subset (Side.reqU c i).roots (provOf c.h.provRegs i.id) = true
-  size : Side.resSizeOk c (Side.defMask D c.f b n) i = true
+  size : Side.resSizeOk c (Side.defMask D offs b n) i = true
   ctl : (match i.op with
-         | .jump t => Side.jumpOk c.prog c.f D b n t
-         | .if _ t e => Side.jumpOk c.prog c.f D b n t && Side.jumpOk c.prog c.f D b n e
-         | .ret vs => Side.retSized c.prog c.f (Side.defMask D c.f b n) vs c.f.resultTys && Side.retLab c vs c.h.returns
+         | .jump t => Side.jumpOk c.prog c.f D offs b n t
+         | .if _ t e => Side.jumpOk c.prog c.f D offs b n t && Side.jumpOk c.prog c.f D offs b n e
+         | .ret vs => Side.retSized c.prog c.f (Side.defMask D offs b n) vs c.f.resultTys && Side.retLab c vs c.h.returns
          | _ => true) = true
 
 theorem ite_nil {c : Prop} [Decidable c] {x : Nm} (h : (if c then [] else [x]) = ([] : List Nm)) : c := by
